@@ -319,6 +319,31 @@ func c17Aux(r *core.Run, p *core.Prog, typ string) {
 				}
 			}
 		}
+		// a local that is nil or (the address of) the same-named receiver field on every assignment
+		if lo, isVar := core.ObjOf(info, sv).(*types.Var); isVar && !lo.IsField() && lo != recv {
+			allOK, nAsg := true, 0
+			var last ast.Expr
+			core.Walk(f.Decl.Body, false, func(x ast.Node) bool {
+				if a, ok := x.(*ast.AssignStmt); ok && len(a.Lhs) == len(a.Rhs) {
+					for i, l := range a.Lhs {
+						if core.ObjOf(info, l) == types.Object(lo) {
+							nAsg++
+							if core.IsNil(info, a.Rhs[i]) {
+								continue
+							}
+							last = strip(a.Rhs[i])
+							if fs := core.SelField(info, last); fs == nil || fs.Name() != fname {
+								allOK = false
+							}
+						}
+					}
+				}
+				return true
+			})
+			if allOK && nAsg > 0 && last != nil {
+				sv = last
+			}
+		}
 		src := core.SelField(info, sv)
 		okSrc := src != nil && src.Name() == fname
 		if sel, ok := sv.(*ast.SelectorExpr); ok && core.ObjOf(info, sel.X) != recv {
